@@ -108,6 +108,13 @@ def replay_failure(inst, prep_ll, wd, failure, out_path):
                 # the real code, run natively on the solver's input, is stopped by ASan/UBSan before the
                 # harness's own check is reached: the failure is real (reported with the sanitizer's text)
                 ok = True
+    elif cls == 'race':
+        # A data race under the declared memory orders is language-level undefined behaviour that no
+        # native run can observe (the baton scheduler itself orders all threads, so TSan is blind
+        # too).  What the replay confirms is that the interleaving in which the two conflicting
+        # accesses occur is realisable on the real code: the schedule runs to completion without
+        # deadlock or crash.  The happens-before verdict itself is the model's.
+        ok = rc in (0, 1)
     elif cls in ('mem', 'ub'):
         ok = rc in (23, 24, -11, -8, -6, 134, 136, 139) or 'ERROR: AddressSanitizer' in errt or \
             'runtime error' in errt or 'LeakSanitizer' in errt
